@@ -6,7 +6,6 @@ import (
 	"bytes"
 	"encoding/hex"
 	"fmt"
-	"math/bits"
 	"strconv"
 	"strings"
 
@@ -62,72 +61,110 @@ func equalShards(a, b [][]byte) bool {
 	return true
 }
 
-func maskShards(enc [][]byte, mask uint64) [][]byte {
+// pmask: which shards / units are present (index i = shard i). Printed shard 0 first.
+type pmask []bool
+
+func (m pmask) count() int {
+	c := 0
+	for _, b := range m {
+		if b {
+			c++
+		}
+	}
+	return c
+}
+
+func (m pmask) String() string {
+	b := make([]byte, len(m))
+	for i, x := range m {
+		b[i] = '0'
+		if x {
+			b[i] = '1'
+		}
+	}
+	return string(b)
+}
+
+func maskOf(n int, bits uint64) pmask {
+	m := make(pmask, n)
+	for i := 0; i < n && i < 64; i++ {
+		m[i] = bits>>uint(i)&1 == 1
+	}
+	return m
+}
+
+func randMask(n int, r *lib.RNG) pmask {
+	m := make(pmask, n)
+	for i := range m {
+		m[i] = r.Bool()
+	}
+	return m
+}
+
+func maskShards(enc [][]byte, mask pmask) [][]byte {
 	out := make([][]byte, len(enc))
 	for i := range enc {
-		if mask>>uint(i)&1 == 1 {
+		if i < len(mask) && mask[i] {
 			out[i] = append([]byte{}, enc[i]...)
 		}
 	}
 	return out
 }
 
-// subsetMasks: all subsets when 2^n <= limit, otherwise a structured + random sample.
-func subsetMasks(n, k int, limit int, r *lib.RNG) []uint64 {
-	if n < 62 && (1<<uint(n)) <= limit {
-		out := make([]uint64, 1<<uint(n))
+// subsetMasks: all subsets when 2^n <= limit, otherwise a structured + random sample (any n).
+func subsetMasks(n, k int, limit int, r *lib.RNG) []pmask {
+	if n < 30 && (1<<uint(n)) <= limit {
+		out := make([]pmask, 1<<uint(n))
 		for i := range out {
-			out[i] = uint64(i)
+			out[i] = maskOf(n, uint64(i))
 		}
 		return out
 	}
-	full := uint64(1)<<uint(n) - 1
-	if n >= 64 {
-		full = ^uint64(0)
-	}
-	seen := map[uint64]bool{}
-	var out []uint64
-	add := func(m uint64) {
-		m &= full
-		if !seen[m] {
-			seen[m] = true
+	seen := map[string]bool{}
+	var out []pmask
+	add := func(m pmask) {
+		if !seen[m.String()] {
+			seen[m.String()] = true
 			out = append(out, m)
 		}
 	}
-	add(0)
-	add(full)
-	add(full &^ 1)                       // only shard 0 missing
-	add(uint64(1)<<uint(k) - 1)          // exactly the data shards
-	add(full &^ (uint64(1)<<uint(k) - 1)) // exactly the parity shards
-	add((uint64(1)<<uint(k) - 1) &^ 1)   // data shards without shard 0: below threshold
-	for len(out) < limit {
-		var m uint64
+	rangeMask := func(lo, hi int) pmask { // shards lo..hi-1 present
+		m := make(pmask, n)
+		for i := lo; i < hi && i < n; i++ {
+			m[i] = true
+		}
+		return m
+	}
+	add(rangeMask(0, 0))
+	add(rangeMask(0, n))
+	add(rangeMask(1, n))   // only shard 0 missing
+	add(rangeMask(0, k))   // exactly the data shards
+	add(rangeMask(k, n))   // exactly the parity shards
+	add(rangeMask(1, k))   // data shards without shard 0: below threshold
+	add(rangeMask(n-k, n)) // the last k shards
+	tries := 0
+	for len(out) < limit && tries < 8*limit {
+		tries++
+		m := make(pmask, n)
+		idx := make([]int, n)
+		for i := range idx {
+			idx[i] = i
+		}
 		switch r.Intn(4) {
 		case 0: // exactly k present
-			idx := make([]int, n)
-			for i := range idx {
-				idx[i] = i
-			}
 			lib.Shuffle(r, idx)
-			for _, i := range idx[:k] {
-				m |= 1 << uint(i)
+			for _, i := range idx[:min(k, n)] {
+				m[i] = true
 			}
 		case 1: // k-1 present
-			idx := make([]int, n)
-			for i := range idx {
-				idx[i] = i
-			}
 			lib.Shuffle(r, idx)
-			for _, i := range idx[:max(k-1, 0)] {
-				m |= 1 << uint(i)
+			for _, i := range idx[:max(min(k-1, n), 0)] {
+				m[i] = true
 			}
 		default:
-			m = r.Uint64()
+			m = randMask(n, r)
 		}
 		add(m)
-		if len(seen) > 4*limit {
-			break
-		}
 	}
 	return out
 }
@@ -184,15 +221,15 @@ func rsCase0(h *hctx, k, p int, data []byte, seedForReplay uint64) {
 	}
 	// MDS: every subset of >= k shards gives back all shards; fewer never succeed
 	for _, mask := range subsetMasks(n, k, h.f.Scale(1024, 4096), r) {
-		present := bits.OnesCount64(mask)
+		present := mask.count()
 		out, rerr, pan := recoverImpl(maskShards(enc, mask), k, p)
 		switch {
 		case pan:
-			h.violate("rs-recover-panics", fmt.Sprintf("RecoverData(k=%d,p=%d,mask=%b) panics: %v", k, p, mask, rerr), rp)
+			h.violate("rs-recover-panics", fmt.Sprintf("RecoverData(k=%d,p=%d,present=%s) panics: %v", k, p, mask, rerr), rp)
 		case present >= k && (rerr != nil || !equalShards(out, enc)):
-			h.violate("rs-mds-law-broken", fmt.Sprintf("RecoverData(k=%d,p=%d) from shards %b of %d: %v / differs", k, p, mask, n, rerr), rp)
+			h.violate("rs-mds-law-broken", fmt.Sprintf("RecoverData(k=%d,p=%d) from shards %s of %d: %v / differs", k, p, mask, n, rerr), rp)
 		case present < k && rerr == nil:
-			h.violate("rs-recover-succeeds-below-threshold", fmt.Sprintf("RecoverData(k=%d,p=%d) from shards %b succeeds", k, p, mask), rp)
+			h.violate("rs-recover-succeeds-below-threshold", fmt.Sprintf("RecoverData(k=%d,p=%d) from shards %s succeeds", k, p, mask), rp)
 		}
 		if present >= k {
 			h.res.Hit("rs:recover-ok")
@@ -202,10 +239,7 @@ func rsCase0(h *hctx, k, p int, data []byte, seedForReplay uint64) {
 	}
 	// damaged inputs: the result is an error, or a codeword that agrees with every present shard
 	for t := 0; t < 24; t++ {
-		mask := r.Uint64()
-		if n < 64 {
-			mask &= uint64(1)<<uint(n) - 1
-		}
+		mask := randMask(n, r)
 		in := maskShards(enc, mask)
 		var present []int
 		for i := range in {
@@ -272,6 +306,12 @@ func secRS(h *hctx, r *lib.RNG) {
 	}
 	rsCase(h, 1, 1, nil, r)
 	rsCase(h, 0, 1, []byte{1, 2}, r)
+	// more than 256 shards: klauspost switches to the Leopard GF(2^16) codec (64-byte shard units,
+	// at least one parity shard)
+	rsCase(h, 99, 200, r.Bytes(2*99), r)
+	rsCase(h, 256, 1, r.Bytes(512), r)
+	rsCase(h, 200, 57, r.Bytes(400), r)
+	rsCase(h, 300, 0, r.Bytes(600), r)
 	if h.f.Thorough() {
 		rsCase(h, 85, 170, r.Bytes(170*3), r)
 	}
@@ -448,9 +488,13 @@ func e2eCase0(h *hctx, k, p int, msg []byte, nonce uint64, seedForReplay uint64,
 	for i := range units {
 		u := &units[i]
 		rt := merkle.Hash(u.MessageRoot)
-		raw := u.MerkleProof.Verify(&rt, u.ShardData[0], uint32(i))
-		pro := u.MerkleProof.Verify(&rt, u.ShardData.MarshalProto(), uint32(i))
-		if !raw && !pro {
+		leaf := []byte(u.ShardData[0])
+		if h.cfg.ValidatorLeafProto {
+			leaf = u.ShardData.MarshalProto()
+		}
+		// "every shard's Merkle proof verifies against the signed root": with the leaf bytes the
+		// receiver's validator uses
+		if !u.MerkleProof.Verify(&rt, leaf, uint32(i)) {
 			h.violate("created-unit-proof-does-not-verify", fmt.Sprintf("unit %d of CreatePropellerUnits(len %d,k=%d,p=%d)", i, len(msg), k, p), rp(nil))
 		}
 		if e := propeller.VerifyMessageSignature(pub.pub, &u.MessageRoot, &u.CommitteeID, u.Nonce, u.Signature); e != nil {
@@ -463,25 +507,28 @@ func e2eCase0(h *hctx, k, p int, msg []byte, nonce uint64, seedForReplay uint64,
 		}
 	}
 	flat := bytes.Join(enc[:k], nil)
-	if padded := propeller.PadMessage(msg, k); !bytes.Equal(flat, padded) {
+	// the data shards are the padded message (followed by zeros when the Leopard codec rounds the
+	// shard size up to 64 bytes)
+	if padded := propeller.PadMessage(msg, k); len(flat) < len(padded) || !bytes.Equal(flat[:len(padded)], padded) ||
+		len(bytes.Trim(flat[len(padded):], "\x00")) != 0 || (k+p <= 256 && len(flat) != len(padded)) {
 		h.violate("created-data-shards-are-not-the-padded-message", fmt.Sprintf("CreatePropellerUnits(len %d,k=%d,p=%d)", len(msg), k, p), rp(nil))
 	}
 
 	// --- every subset of units -> ConstructMessageFromUnits ---
 	for _, mask := range subsetMasks(n, k, subsetLimit, r) {
-		present := bits.OnesCount64(mask)
+		present := mask.count()
 		ptrs := make([]*propeller.Unit, n)
 		for i := range units {
-			if mask>>uint(i)&1 == 1 {
+			if mask[i] {
 				ptrs[i] = cloneUnit(&units[i])
 			}
 		}
 		local := r.Intn(n)
 		out, got, cerr := constructOutcome(h, ptrs, local, k, p)
-		modelConstruct(h, "construct", rp(map[string]any{"present": fmt.Sprintf("%b", mask), "local": local}), ptrs, local, k, p, out)
-		rpm := rp(map[string]any{"present_mask": fmt.Sprintf("%0*b", n, mask), "local": local})
+		modelConstruct(h, "construct", rp(map[string]any{"present": mask.String(), "local": local}), ptrs, local, k, p, out)
+		rpm := rp(map[string]any{"present_mask": mask.String(), "local": local})
 		switch {
-		case present >= k && mask&1 == 0:
+		case present >= k && !mask[0]:
 			h.res.Hit("construct:enough-shards,shard0-missing")
 		case present >= k:
 			h.res.Hit("construct:enough-shards,shard0-present")
@@ -489,34 +536,37 @@ func e2eCase0(h *hctx, k, p int, msg []byte, nonce uint64, seedForReplay uint64,
 			h.res.Hit("construct:below-threshold")
 		}
 		switch {
-		case out == "panic" && mask&1 == 0 && present >= k:
+		case out == "panic" && !mask[0] && present >= k:
 			h.violate("construct-panics-when-shard0-missing",
-				fmt.Sprintf("ConstructMessageFromUnits(k=%d,p=%d) with units %0*b (bit i = shard i present): %v", k, p, n, mask, cerr), rpm)
+				fmt.Sprintf("ConstructMessageFromUnits(k=%d,p=%d) with units %s (shard 0 first): %v", k, p, mask, cerr), rpm)
 		case out == "panic":
-			h.violate("construct-panics", fmt.Sprintf("ConstructMessageFromUnits(k=%d,p=%d) with units %0*b: %v", k, p, n, mask, cerr), rpm)
+			h.violate("construct-panics", fmt.Sprintf("ConstructMessageFromUnits(k=%d,p=%d) with units %s: %v", k, p, mask, cerr), rpm)
 		case present >= k && cerr != nil:
-			h.violate("construct-fails-with-enough-shards", fmt.Sprintf("ConstructMessageFromUnits(k=%d,p=%d) with units %0*b: %v", k, p, n, mask, cerr), rpm)
+			h.violate("construct-fails-with-enough-shards", fmt.Sprintf("ConstructMessageFromUnits(k=%d,p=%d) with units %s: %v", k, p, mask, cerr), rpm)
 		case present >= k && !bytes.Equal(got, msg):
-			h.violate("construct-returns-different-message", fmt.Sprintf("ConstructMessageFromUnits(k=%d,p=%d) with units %0*b: %x != %x", k, p, n, mask, clipB(got), clipB(msg)), rpm)
+			h.violate("construct-returns-different-message", fmt.Sprintf("ConstructMessageFromUnits(k=%d,p=%d) with units %s: %x != %x", k, p, mask, clipB(got), clipB(msg)), rpm)
 		case present < k && cerr == nil:
-			h.violate("construct-succeeds-below-threshold", fmt.Sprintf("ConstructMessageFromUnits(k=%d,p=%d) with units %0*b", k, p, n, mask), rpm)
+			h.violate("construct-succeeds-below-threshold", fmt.Sprintf("ConstructMessageFromUnits(k=%d,p=%d) with units %s", k, p, mask), rpm)
 		}
 		if present >= k && cerr == nil && strings.HasPrefix(out, "ok ") {
 			// local shard and proof are the publisher's
 			want := "ok " + hx(msg) + " " + strings.ReplaceAll(hexList([][]byte{enc[local]}), "-", ".") + " " + hashesHex(toHashes(units[local].MerkleProof.Siblings))
 			if out != want {
-				h.violate("construct-local-shard-or-proof-differs", fmt.Sprintf("ConstructMessageFromUnits(k=%d,p=%d,local=%d) with units %0*b", k, p, local, n, mask), rpm)
+				h.violate("construct-local-shard-or-proof-differs", fmt.Sprintf("ConstructMessageFromUnits(k=%d,p=%d,local=%d) with units %s", k, p, local, mask), rpm)
 			}
 		}
 	}
 
 	// --- damaged units reaching construction: an error or the exact message, never anything else ---
 	for t := 0; t < 16 && n >= 1; t++ {
-		mask := r.Uint64() | 1 // keep shard 0 so that the known nil dereference does not hide the rest
+		mask := randMask(n, r) // shard 0 present or not: since a2bceaf the root is taken from the first present unit
+		if mask.count() == 0 {
+			mask[r.Intn(n)] = true
+		}
 		ptrs := make([]*propeller.Unit, n)
 		var present []int
 		for i := range units {
-			if mask>>uint(i)&1 == 1 {
+			if mask[i] {
 				ptrs[i] = cloneUnit(&units[i])
 				present = append(present, i)
 			}
@@ -541,9 +591,9 @@ func e2eCase0(h *hctx, k, p int, msg []byte, nonce uint64, seedForReplay uint64,
 		}
 		local := r.Intn(n)
 		out, got, cerr := constructOutcome(h, ptrs, local, k, p)
-		modelConstruct(h, "construct-damaged", rp(map[string]any{"present": fmt.Sprintf("%b", mask), "damage": kind, "unit": j}), ptrs, local, k, p, out)
+		modelConstruct(h, "construct-damaged", rp(map[string]any{"present": mask.String(), "damage": kind, "unit": j}), ptrs, local, k, p, out)
 		h.res.Hit("construct-damaged:" + kind + ":" + outcomeTag(out))
-		rpm := rp(map[string]any{"present_mask": fmt.Sprintf("%0*b", n, mask&(1<<uint(n)-1)), "damage": kind, "unit": j})
+		rpm := rp(map[string]any{"present_mask": mask.String(), "damage": kind, "unit": j})
 		switch {
 		case out == "panic":
 			h.violate("construct-panics-on-damaged-unit", fmt.Sprintf("ConstructMessageFromUnits(k=%d,p=%d), %s of unit %d: %v", k, p, kind, j, cerr), rpm)
@@ -552,6 +602,75 @@ func e2eCase0(h *hctx, k, p int, msg []byte, nonce uint64, seedForReplay uint64,
 				fmt.Sprintf("ConstructMessageFromUnits(k=%d,p=%d), %s of unit %d: got %x want %x", k, p, kind, j, clipB(got), clipB(msg)), rpm)
 		}
 	}
+}
+
+// constructEdgeCases: calls outside what the processor does (caller contracts), compared with the
+// model only: a local index ≥ k+p, unit slices shorter / longer than k+p, present units with 0 or 2
+// shards, and zero data shards.
+func constructEdgeCases(h *hctx, r *lib.RNG) {
+	pub := makeMember(77)
+	var cid propeller.CommitteeID
+	copy(cid[:], r.Bytes(32))
+	k, p := 2, 2
+	msg := genMsg(r, 21)
+	units, err := propeller.CreatePropellerUnits(pub.priv, &cid, 9, msg, k, p)
+	if err != nil {
+		h.res.Fatalf("constructEdgeCases: %v", err)
+		return
+	}
+	leaves := make([][]byte, len(units))
+	for i := range units {
+		leaves[i] = leafBytes(h, &units[i])
+	}
+	modelMerkle(h, leaves)
+	all := func() []*propeller.Unit {
+		out := make([]*propeller.Unit, len(units))
+		for i := range units {
+			out[i] = cloneUnit(&units[i])
+		}
+		return out
+	}
+	run := func(what string, us []*propeller.Unit, local int) {
+		out, _, _ := constructOutcome(h, us, local, k, p)
+		h.res.Case("construct-edge/"+what, true)
+		h.res.Hit("construct-edge:" + what + ":" + outcomeTag(out))
+		modelConstruct(h, "construct-edge-"+what, map[string]any{"what": what}, us, local, k, p, out)
+	}
+	run("local=n", all(), k+p)
+	run("local>n", all(), k+p+5)
+	run("slice-shorter", all()[:k+p-1], 0)
+	run("slice-longer", append(all(), nil), 0)
+	run("slice-longer-with-unit", append(all(), cloneUnit(&units[0])), 0)
+	us := all()
+	us[1].ShardData = propeller.ShardData{}
+	run("unit-without-shard", us, 0)
+	us = all()
+	us[2].ShardData = append(us[2].ShardData, propeller.Shard{1, 2, 3})
+	run("unit-with-two-shards", us, 0)
+	us = all()
+	us[0], us[1] = nil, nil
+	us[2].MessageRoot[3] ^= 1 // the first PRESENT unit carries a wrong root (shard 0 missing)
+	run("first-present-unit-wrong-root", us, 3)
+	run("no-unit-present", make([]*propeller.Unit, k+p), 0)
+	// zero data shards: PadMessage divides by zero before reedsolomon.New can refuse
+	var cu []propeller.Unit
+	_, panicked, _ := lib.Try(func() error { var e error; cu, e = propeller.CreatePropellerUnits(pub.priv, &cid, 9, msg, 0, 2); return e })
+	implS := "err-or-ok"
+	if panicked {
+		implS = "panic"
+	}
+	_ = cu
+	h.res.Case("create-edge/k=0", true)
+	h.check("create-k=0", "k=0", fmt.Sprintf("create %s 0 2 9 %s %s %s -", h.cfg, hx(cid[:]), hx([]byte(pub.id)), hx(msg)), implS, false)
+	_, panicked, _ = lib.Try(func() error { propeller.PadMessage(msg, 0); return nil })
+	implS = "ok"
+	if panicked {
+		implS = "panic"
+	}
+	h.check("pad-k=0", "k=0", "pad 0 "+hx(msg), implS, false)
+	// negative k cannot be expressed in the model (k : Nat): oracle only — it must not return
+	_, panicked, _ = lib.Try(func() error { propeller.PadMessage(msg, -1); return nil })
+	h.res.Hit(fmt.Sprintf("pad-edge:k=-1:panicked=%v", panicked))
 }
 
 func secE2E(h *hctx, r *lib.RNG) {
@@ -593,6 +712,13 @@ func secE2E(h *hctx, r *lib.RNG) {
 			e2eCase(h, c.k, c.p, genMsg(r, l), lib.Pick(r, []uint64{0, 1, 1758700000000000000, 1<<63 - 1, 1 << 63}), r, limit)
 		}
 	}
+	// more than 256 shards: the Leopard codec (shard size rounded up to 64 bytes)
+	for _, c := range []kp{{99, 200}, {256, 1}, {3, 300}} {
+		for _, l := range []int{2*c.k - 1, 700} {
+			e2eCase(h, c.k, c.p, genMsg(r, l), 7, r, h.f.Scale(10, 120))
+		}
+	}
+	constructEdgeCases(h, r)
 	for i := 0; i < h.f.Scale(80, 1500); i++ {
 		k, p := r.Range(1, 6), r.Range(0, 6)
 		e2eCase(h, k, p, genMsg(r, r.Intn(8*k+4)), r.Uint64()>>uint(r.Intn(64)), r, h.f.Scale(64, 256))
